@@ -1020,7 +1020,7 @@ func TestVerifC11(t *testing.T) {
 		DeadlockClass: "C11.deadlock",
 		Rule: "a scenario is one of three modes. mux (40%): chain of 2-5 HTTPServer specs derived from one another by 0-3 edits (rules, rewrite targets, xForwardedFor, body limits, IP filters at three levels, cache size, identical re-apply), " +
 			"one updater task calling mux.reload, 1-4 client tasks with 4-24 requests whose backend handlers park; pipe (40%): one filter kind under test (RateLimiter, Proxy, Mock, Request/ResponseAdaptor, Validator, Fallback, CORSAdaptor, Request/ResponseBuilder, HeaderToJSON, CertExtractor) in a real Pipeline, " +
-			"2-4 generations (Init, then Inherit which closes the previous one), requests park before / inside / after the filter under test while the updater inherits; tc (20%): real TrafficController with a real HTTPServer object and Pipelines A,B,C, two updater tasks issuing create/apply/update/delete (and identical re-apply) on disjoint names, requests and GetHandler lookups; " +
+			"2-4 generations (Init, then Inherit which closes the previous one; 15% of the updates keep the NAME of the filter under test and change its KIND), requests park before / inside / after the filter under test while the updater inherits; tc (20%): real TrafficController with a real HTTPServer object and Pipelines A,B,C, two updater tasks issuing create/apply/update/delete (and identical re-apply) on disjoint names, requests and GetHandler lookups; " +
 			"non-trivial = a request overlapped an update that changes its answer, or ran on a generation that had already been inherited from / closed, or started after an update that changes its answer; distinct = distinct (specs, ordered request/answer history)",
 		Real: []string{"pkg/object/httpserver mux (newMux, reload, ServeHTTP, search, cache), runtime + HTTPServer object (mode tc)", "pkg/object/pipeline Pipeline (Init, Inherit, Close, Handle)", "pkg/object/trafficcontroller (Create/Apply/Update/Delete Pipeline and TrafficGate, Namespace.GetHandler)",
 			"pkg/filters: ratelimiter, proxy (pools, load balancers, memory cache, resilience wrappers), mock, requestadaptor, responseadaptor, validator, fallback, corsadaptor, builder, headertojson, certextractor", "pkg/supervisor Spec / ObjectEntity", "pkg/util/ratelimiter, pkg/util/ipfilter, pkg/protocols/httpprot, pkg/context"},
